@@ -5,8 +5,8 @@
 //!   (a) pushed to the `index` correspondence stream (RowIdIndex::new/get on REAL layouts vs the model),
 //!   (b) checked against the ordered scan: index.get(_rowid) == _rowaddr for every live row, ids unique,
 //!       every key keeps the row id it was created with, Dataset::take_rows(ids) returns those keys.
-//! One extra history updates a row in the middle of a fragment: the F18 class (known finding).
-use crate::index::{case_index, Frag, CLASS_OVERLAP};
+//! One extra history updates a row in the middle of a fragment: the former F18 layout (repaired by ac0e2db), now under the strict oracle.
+use crate::index::{case_index, Frag};
 use crate::model::seq_of_real;
 use arrow_array::{Int64Array, RecordBatch, RecordBatchIterator, UInt64Array};
 use arrow_schema::{DataType, Field, Schema as ArrowSchema};
@@ -183,7 +183,8 @@ async fn observe(sink: &mut Sink, st: &mut Stream, t: &mut Tbl, rng: &mut Rng, f
     let ids2 = ids.clone();
     let taken = tokio::task::spawn(async move { ds.take_rows(&ids2, lance::dataset::ProjectionRequest::from_columns(["k"], ds.schema())).await }).await;
     let expect: Vec<i64> = ids.iter().map(|i| seen[i]).collect();
-    let cls = if f18 || crate::index::overlapping(&frags) { Some(CLASS_OVERLAP) } else { None };
+    let _ = f18; // F18 is repaired (ac0e2db): strict oracle
+    let cls: Option<&str> = None;
     match taken {
         Ok(Ok(b)) => {
             let k = b.column_by_name("k").unwrap().as_any().downcast_ref::<Int64Array>().unwrap();
